@@ -1,5 +1,5 @@
 (* C07/Props.v -- the property theorems, and nothing else.  Each is closed by [exact] of a lemma of
-   Proofs.v / Proofs2.v and followed by Print Assumptions.
+   Proofs.v / Proofs2.v / Proofs3.v and followed by Print Assumptions.
 
    Reading.  sc = the cluster-assignment vector; a "group" of id c is
    members sc ids c = [ids[i] | i ascending, sc[i] = c]  (ids = np.arange(len(sc)) unless a spike-id
@@ -7,7 +7,7 @@
    is an IndexError).  All statements are over Z: no dtype wrap-around is modelled (the only
    subtraction of the code, np.diff of the sorted ids, is of sorted neighbours). *)
 From Coq Require Import ZArith List Lia Bool Arith Permutation Sorted.
-From PV Require Import Base.NpSort C07.Model C07.Spec C07.Proofs C07.Proofs2.
+From PV Require Import Base.NpSort C07.Model C07.Spec C07.Proofs C07.Proofs2 C07.Proofs3.
 Import ListNotations.
 Open Scope Z_scope.
 
@@ -167,6 +167,30 @@ Proof.
 Qed.
 Print Assumptions C07_checker_sound.
 
+(* _flatten_per_cluster(_spikes_per_cluster(sc, ids)): for a non-empty vector the strictly increasing
+   list of the distinct spike ids of ALL spikes (the groups partition them, so nothing is lost);
+   for the empty vector the dict is {} and flattening it is an error (np.concatenate of nothing). *)
+Theorem C07_flatten_groups : forall (sc : list Z) (spike_ids : option (list Z)),
+  (length sc <= length (eff_ids sc spike_ids))%nat ->
+  (sc <> [] ->
+     exists d r, spikes_per_cluster sc spike_ids = Some d /\ flatten_per_cluster d = Some r /\
+       StronglySorted Z.lt r /\ forall i, In i r <-> In i (firstn (length sc) (eff_ids sc spike_ids))) /\
+  (sc = [] -> spikes_per_cluster sc spike_ids = Some [] /\ flatten_per_cluster [] = None).
+Proof. exact spc_flatten_thm. Qed.
+Print Assumptions C07_flatten_groups.
+
+(* the boolean comparator clauses 21, 22, 23, 29 imply the declarative statements of stage 1 *)
+Theorem C07_checker_sound_groups : forall (sc ids cl r v : list Z) (d : list group) (c : Z),
+  (groups_b sc ids d = true -> Groups_Spec sc ids d) /\
+  (partition_b sc ids d = true -> Partition_Spec sc ids d) /\
+  (union_b sc cl r = true -> Groups_Spec sc (arange (length sc)) d -> Union_Spec cl d r) /\
+  (cluster_spikes_b v c r = true -> r = members v (arange (length v)) c).
+Proof.
+  intros. split; [apply groups_b_sound|]. split; [apply partition_b_sound|].
+  split; [apply union_b_sound|apply cluster_spikes_b_sound].
+Qed.
+Print Assumptions C07_checker_sound_groups.
+
 (* ---- non-vacuity of the stage-2 theorems ---- *)
 Example C07_ex_unique : unique [7; -1; 3; 3; 0; -5; 7] = Some [0; 3; 7] /\ unique [-1; -1] = Some [].
 Proof. vm_compute. split; reflexivity. Qed.
@@ -205,4 +229,16 @@ Example C07_ex_checkers :
   flatten_b [mkg 0 [5; 1; 5]; mkg 1 [1; 0]] [0; 1; 5] = true /\
   gmean_b [1; 2; 4] [1; 1; 1] [mkgm 7 3] = true /\ gmean_b [1; 2; 4] [1; 1; 1] [mkgm 7 2] = false /\
   counts_b [1; 1] [0; 0] 3 1 [2; 0; 0] = true /\ counts_b [1; 1] [0; 0] 3 1 [2] = false.
+Proof. vm_compute. repeat split; reflexivity. Qed.
+Example C07_ex_flatten_groups :
+  (match spikes_per_cluster [7; 0; 3; 3; 0; 7; 2] (Some [10; 5; 8; 9; 1; 2; 3; 99]) with
+   | Some d => flatten_per_cluster d | None => None end) = Some [1; 2; 3; 5; 8; 9; 10].
+Proof. vm_compute. reflexivity. Qed.
+Example C07_ex_checkers_groups :
+  groups_b [7; 0; 3; 0] [0; 1; 2; 3] [mkg 0 [1; 3]; mkg 3 [2]; mkg 7 [0]] = true /\
+  groups_b [7; 0; 3; 0] [0; 1; 2; 3] [mkg 0 [3; 1]; mkg 3 [2]; mkg 7 [0]] = false /\
+  partition_b [7; 0; 3; 0] [0; 1; 2; 3] [mkg 0 [1; 3]; mkg 3 [2]; mkg 7 [0]] = true /\
+  partition_b [7; 0; 3; 0] [0; 1; 2; 3] [mkg 0 [1]; mkg 3 [2]; mkg 7 [0]] = false /\
+  union_b [7; 0; 3; 0] [9; 0; 7; 0] [0; 1; 3] = true /\ union_b [7; 0; 3; 0] [9; 0; 7; 0] [1; 3] = false /\
+  cluster_spikes_b [7; 0; 3; 0] 0 [1; 3] = true.
 Proof. vm_compute. repeat split; reflexivity. Qed.
